@@ -276,6 +276,7 @@ func corrMemfs(seed uint64, tier string, replay []string, prop string, opts fsGe
 		}
 		res.Notes = append(res.Notes, fmt.Sprintf("wfCheck evaluated on %d dumped implementation graphs", len(wfLines)))
 	}
+	shrinks := 0
 	for k, h := range hs {
 		if k >= nReal {
 			break
@@ -294,6 +295,9 @@ func corrMemfs(seed uint64, tier string, replay []string, prop string, opts fsGe
 		d := lib.FirstDiff(impls[k], model[k])
 		if d < 0 {
 			continue
+		}
+		if shrinks++; shrinks > 60 {
+			break // enough representatives (each minimisation costs many driver runs)
 		}
 		cut := h[:d+1]
 		small := lib.Shrink(cut, 1, func(c lib.History) bool {
